@@ -24,7 +24,7 @@ using cppcms::impl::base_cache;
 
 int g_key_pad[64];   // per-run: key i is padded to this length (long keys exercise allocation failures while the key itself is copied into shared memory)
 bool g_colliding = false;   // "k0", "j@", "iP", "h`" have the same cppcms string_hash: one bucket chain in every table size
-std::string key_name(int k){ static const char *coll[] = {"k0","j@","iP","h`","k0_xybkckgp"}; std::string n = g_colliding && k >= 0 && k < 5 ? std::string(coll[k]) : "k" + std::to_string(k);   // the fifth has "k0" as a proper prefix AND the same hash int pad = (k >= 0 && k < 64) ? g_key_pad[k] : 0; if(pad > (int)n.size()) n += std::string((size_t)pad - n.size(),(char)('A' + k % 26)); return n; }
+std::string key_name(int k){ static const char *coll[] = {"k0","j@","iP","h`","k0_xybkckgp"}; std::string n = g_colliding && k >= 0 && k < 5 ? std::string(coll[k]) : "k" + std::to_string(k);   /* the fifth has "k0" as a proper prefix AND the same hash */ int pad = (k >= 0 && k < 64) ? g_key_pad[k] : 0; if(pad > (int)n.size()) n += std::string((size_t)pad - n.size(),(char)('A' + k % 26)); return n; }
 std::string trig_name(int t){ if(g_colliding && t == 1) return "t0_cybbclep";   /* same hash as "t0", which is its prefix */ return t >= 100 ? key_name(t-100) : "t" + std::to_string(t); }
 std::string make_val(int opidx,int len){
 	std::string v = "v" + std::to_string(opidx) + "|";
